@@ -14,4 +14,4 @@ Separate Extraction
   payload_size file_mdat mdat_view decode_file_mdat
   aux tbox frag seg fstate decode_file_frag fin_state mkey mdat_is_lazy
   encode_tops encode_tops_splice elide mdat_for_writing
-  swr sw_write mdat_encode_sw encode_tops_sw sw_new.
+  swr sw_write mdat_encode_sw encode_tops_sw sw_new lazy_size_after sizes_from.
